@@ -902,6 +902,25 @@ def remove_value(source: NixSourceCode, npath: str) -> str:
         if not target_layer["scope"]:
             removed_layer = target_layer
             del layers[layer_index]
+            if layers:
+                # Other layers remain: the trivia around the removed layer's body
+                # (comments between its `in` and what follows) now belongs to the
+                # body of the layer that enclosed it.
+                if layer_index > 0:
+                    outer = layers[layer_index - 1]
+                    outer["body_before"] = list(outer["body_before"]) + list(
+                        removed_layer["body_before"]
+                    )
+                    outer["body_after"] = list(removed_layer["body_after"]) + list(
+                        outer["body_after"]
+                    )
+                else:
+                    target_expr.before = list(target_expr.before) + list(
+                        removed_layer["body_before"]
+                    )
+                    target_expr.after = list(removed_layer["body_after"]) + list(
+                        target_expr.after
+                    )
 
         _write_scope_layers(target_expr, layers, restored_layer=removed_layer)
         if removed_layer and not layers:
@@ -909,19 +928,6 @@ def remove_value(source: NixSourceCode, npath: str) -> str:
             # with prior formatting (e.g., trailing comments without an extra EOL).
             while source.trailing and source.trailing[-1] in (linebreak, empty_line):
                 source.trailing.pop()
-        if (
-            removed_layer and layers and removed_layer.get("body_after")
-        ):  # pragma: no cover - defensive restoration
-            # Restore trailing trivia that was stashed on the scope layer.
-            if not source.trailing:
-                source.trailing = list(removed_layer["body_after"])
-            else:
-                existing_ids = {id(item) for item in source.trailing}
-                source.trailing.extend(
-                    item
-                    for item in removed_layer["body_after"]
-                    if id(item) not in existing_ids
-                )
         if (
             not source.trailing and original_trailing
         ):  # pragma: no cover - defensive restoration
